@@ -15,7 +15,7 @@ RULE = ("A program is built from 3..6 units over a small pool of generated input
         "heap traffic) in between; validity by construction. The whole program runs in one ASan+UBSan+LSan probe process. "
         "Oracle: every unit is also executed alone in a fresh process; return codes, dumped names/rows, written files (MSF "
         "date/file name normalised) and scores must be equal; LeakSanitizer must be silent when the program ends after the "
-        "final free, and on the un-sanitised build an interposed malloc/free accounting must show that, after a warm-up unit, the program leaves no more than 2 KiB / 8 blocks allocated beyond what was allocated before it (memory parked behind static pointers is invisible to LeakSanitizer); in that second run (system allocator, which hands freed blocks out again in a different order - the sanitizer's never does) every unit must again give the result it gives alone. Inputs include records that share a name and 'tie' families (equal lengths, equal names). Non-trivial = >= 3 units, >= 2 distinct inputs or configurations and >= 1 interleaving (a step of one "
+        "final free, and on the un-sanitised build an interposed malloc/free accounting must show that, after a warm-up unit, the program leaves no more than 2 KiB / 8 blocks allocated beyond what was allocated before it (memory parked behind static pointers is invisible to LeakSanitizer); in that second run (system allocator, which hands freed blocks out again in a different order - the sanitizer's never does) every unit must again give the result it gives alone. Inputs include records that share a name, 'tie' families (equal lengths, equal names) and, one in eight, 100..170 sequences of 10..300 residues (k-means guide tree; star or tree-shaped family) with 0..2 long outliers of skewed composition. Non-trivial = >= 3 units, >= 2 distinct inputs or configurations and >= 1 interleaving (a step of one "
         "unit between two steps of another); distinct by hash of the program.")
 ASSUMPTIONS = ["libgomp's thread pool is reachable at exit and therefore not reported by LeakSanitizer",
                "inputs are valid for the calls made on them except in the deliberately rejected unit"]
@@ -63,6 +63,22 @@ def inputs(draw):
         kind = gen.expected_kind(seqs)
         if kind is not None:
             return {"names": names, "seqs": seqs, "kind": kind}
+    if draw(st.integers(0, 7)) == 0:
+        # enough sequences for the k-means guide tree (>= 100): a tight family, optionally with one or two outliers that a
+        # split isolates
+        k, alpha = draw(gen.alphabets())
+        n = draw(st.integers(100, 170))
+        L = draw(st.sampled_from([10, 24, 60, 150, 150, 300]))
+        # a star (every member mutated from the ancestor: no structure for a split to follow) or a tree-shaped family
+        fam = gen.expand_family(draw(st.integers(0, 2 ** 32 - 1)), alpha, n, L, draw(st.sampled_from([0.02, 0.03, 0.1])), 0.01, 0.0,
+                                tree=draw(st.booleans()))
+        for _ in range(draw(st.integers(0, 2))):
+            # outliers: unrelated, longer, of skewed composition
+            few = "".join(draw(st.lists(st.sampled_from(sorted(set(alpha))), min_size=2, max_size=4)))
+            fam.insert(draw(st.integers(0, len(fam))), gen.expand_random(draw(st.integers(0, 2 ** 32 - 1)), few, 1, 2 * L + 20, 2 * L + 20)[0])
+        kind = gen.expected_kind(fam)
+        if kind is not None:
+            return {"names": ["m%d" % i for i in range(len(fam))], "seqs": fam, "kind": kind}
     ss = draw(gen.seqsets(max_n=14, max_len=90))
     if ss["kind"] is None:
         ss = draw(gen.seqsets(kind="dna", max_n=8, max_len=40))
@@ -338,3 +354,35 @@ def check(case):
     nt = len(units) >= 3 and distinct >= 2 and interleaved
     return engine.ok(nt, cl, {"program": [p.split()[0] + ":" + str(o) for p, o in zip(prog, owner)][:40],
                               "units": [(u["kind"], u["inp"], u["cfg"]["type"], u["cfg"]["threads"]) for u in units]})
+
+
+# ------------------------------------------------------------------ enumerated: inputs large enough for the k-means guide tree
+
+def extra(tier, seed, stats):
+    """Programs over star-shaped families of 101..160 sequences x 150/300 residues with one long outlier of skewed composition
+    (the shape on which a k-means split isolates a single sequence), nucleotide and protein: two file units and an array
+    unit each; same oracle as every other program (fresh-process equality, LeakSanitizer, heap accounting)."""
+    from concurrent.futures import ThreadPoolExecutor
+    import random as _r
+    cases_ = []
+    shapes = [(101, 150), (140, 300), (160, 150)] if tier == "quick" else [(100, 150), (101, 150), (120, 200), (140, 300), (160, 150), (260, 300)]
+    for i, (n, L) in enumerate(shapes):
+        for kind, alpha, few in (("dna", gen.NUC, "AC"), ("protein", gen.AA, "WCHM")):
+            rnd = _r.Random(seed * 7 + i)
+            fam = gen.expand_family(rnd.randrange(2 ** 32), alpha, n, L, 0.03, 0.01, 0.0, tree=False)
+            fam.insert(n // 2, "".join(rnd.choice(few) for _ in range(2 * L + 20)))
+            pool = [{"names": ["m%d" % j for j in range(len(fam))], "seqs": fam, "kind": kind}]
+            cfg = {"type": 5, "threads": 1 + i % 4, "gpo": -1.0, "gpe": -1.0, "tgpe": -1.0}
+            units = [{"kind": "F", "inp": 0, "cfg": cfg, "nfiles": 1, "infmt": "fasta", "outfmts": ["fasta"], "rerun": False, "early_write": False, "pre": []},
+                     {"kind": "A", "inp": 0, "cfg": dict(cfg, threads=2)},
+                     {"kind": "F", "inp": 0, "cfg": dict(cfg, threads=4), "nfiles": 2, "infmt": "fasta", "outfmts": ["msf"], "rerun": False, "early_write": False, "pre": []}]
+            cases_.append({"pool": pool, "units": units, "order": [0, 1, 2] * 6, "scribble": [[3, 256, 7]]})
+    with ThreadPoolExecutor(max_workers=6) as ex:
+        res = list(ex.map(check, cases_))
+    out = []
+    for c, r in zip(cases_, res):
+        stats.record(c, r)
+        stats.classes["kmeans_outlier_programs"] += 1
+        if r["status"] == "violation":
+            out.append({"case": c, "detail": r["detail"], "kind": r.get("kind")})
+    return out
